@@ -223,12 +223,14 @@ func (u *UnitGen) execInstr(fr *Frame, st *State, instr ssa.Instruction) {
 		r := u.alloc(st, fmt.Sprintf("f%d_%s_map", fr.id, in.Name()))
 		u.nonNil[r.S] = true
 		dk, _, ds, _ := u.mapKeys(in.Type())
+		u.markStore(dk, r)
 		u.setDef(st, dk, Store(u.get(st, dk, ds), r, ConstArray(elemSort(ds), TFalse)))
 		fr.vals[in] = r
 	case *ssa.MakeChan:
 		r := u.alloc(st, fmt.Sprintf("f%d_%s_chan", fr.id, in.Name()))
 		u.nonNil[r.S] = true
 		_, lk, _, ls := u.sentKeys(in.Type())
+		u.markStore(lk, r)
 		u.setDef(st, lk, Store(u.get(st, lk, ls), r, IntN(0)))
 		fr.vals[in] = r
 	case *ssa.MakeSlice:
@@ -611,7 +613,9 @@ func (u *UnitGen) mapStore(st *State, mt types.Type, m, k, v Term) {
 	dk, vk, ds, vs := u.mapKeys(mt)
 	d := u.get(st, dk, ds)
 	vv := u.get(st, vk, vs)
+	u.markStore(dk, m)
 	u.setDef(st, dk, Store(d, m, Store(Select(d, m), k, TTrue)))
+	u.markStore(vk, m)
 	u.setDef(st, vk, Store(vv, m, Store(Select(vv, m), k, v)))
 }
 
@@ -619,6 +623,7 @@ func (u *UnitGen) mapDelete(st *State, mt types.Type, m, k Term) {
 	dk, _, ds, _ := u.mapKeys(mt)
 	d := u.get(st, dk, ds)
 	// delete on a nil map is a no-op; the nil map has an empty domain by convention
+	u.markStore(dk, m)
 	u.setDef(st, dk, Store(d, m, Store(Select(d, m), k, TFalse)))
 }
 
@@ -680,7 +685,9 @@ func (u *UnitGen) chanSend(st *State, ct types.Type, ch, x Term) {
 	d := u.get(st, dk, ds)
 	l := u.get(st, lk, ls)
 	n := Select(l, ch)
+	u.markStore(dk, ch)
 	u.setDef(st, dk, Store(d, ch, Store(Select(d, ch), n, x)))
+	u.markStore(lk, ch)
 	u.setDef(st, lk, Store(l, ch, App(SInt, "+", n, IntN(1))))
 }
 
